@@ -16,8 +16,9 @@ type Run struct {
 	// Universal requests the module-wide (not only anchored) form of the rules.
 	Universal bool
 
-	nilableCache map[*types.Var]bool
-	mayNilMemo   map[string]int
+	nilableCache               map[*types.Var]bool
+	mayNilMemo                 map[string]int
+	chunkCondDone, chunkCondOK bool
 }
 
 // Checker decides one property on one loaded configuration.
